@@ -1574,11 +1574,20 @@ def _exponent_bound_gates(F, s, e):
             if d[0] == "bool" and d[2] is False and any(c.endswith("Iterator>::any") or c.endswith("Iterator::any") for c in ap_calls(d[1])):
                 ok1 = True
     cm = [f for f in F.by_crate[CORE] if f.path.startswith("types::number::Number::pow::{closure") and any("checked_mul" in t["callee"]["path"] for _, t in f.calls() if "callee" in t)]
-    eq = F.find(CORE, "loader::load::eval_quantity")
+    # (a private helper the range test has been moved into is put back in place; the filter itself stays a call)
+    eq = F.find(CORE, "loader::load::eval_quantity", inline=True, keep=("Option::<T>", "Iterator", "bool>::then"))
     dp = [(bb, t) for bb, t in eq.calls() if "callee" in t and t["callee"]["path"].endswith("Dimensionality::pow")]
     ok2 = bool(dp) and all("Option::<T>::filter" in ap_str(eq.apath(t["args"][1])) for bb, t in dp)
-    cq = [f for f in F.by_crate[CORE] if f.path.startswith("loader::load::eval_quantity::{closure") and any("checked_mul" in t["callee"]["path"] for _, t in f.calls() if "callee" in t)]
-    ok = ok1 and bool(cm) and ok2 and len(cq) >= 2
+    # every exponent handed to Dimensionality::pow went through a filter whose closure multiplies with checked_mul
+    def checked(path):
+        return any((f.path == path or f.path.startswith(path + "::{closure")) and any("checked_mul" in t["callee"]["path"] for _, t in f.calls() if "callee" in t) for f in F.by_crate[CORE])
+    cq = []
+    for bb, t in dp:
+        txt = ap_str(eq.apath(t["args"][1]))
+        cps = re.findall(r"closure:([^{]+(?:\{closure#\d+\})+)", txt)
+        if any(checked(cp) for cp in cps):
+            cq.append(bb)
+    ok = ok1 and bool(cm) and ok2 and len(cq) == len(dp) and len(dp) >= 2
     return ok, ("Number::pow and eval_quantity bound resulting exponents with checked_mul before powi / Dimensionality::pow" if ok else
                 "exponent bound missing: pow gate %s, pow checked_mul %s, eval_quantity filter %s, eval_quantity checked_mul closures %d" % (ok1, bool(cm), ok2, len(cq)))
 
